@@ -491,12 +491,6 @@ class Worker:
                     if task.is_descendant_of(addr):
                         return
 
-            if task.return_address not in self._tasks:
-                # The task was cancelled while this step was running (its
-                # mailboxes are gone, so e.g. its own cancel/await calls fail);
-                # the failure of cancelled work is not an error of the job.
-                return
-
             assert self._active_task is not None  # for type checker
 
             # Bubble up errors
@@ -746,9 +740,14 @@ class Worker:
     def cancel(self, future: RuntimeFuture) -> None:
         """Cancel all tasks associated with `future`."""
         assert self._active_task is not None
-        num_slots = self._mailboxes[future.mailbox_id].expected_num_results
-        self._active_task.owned_mailboxes.remove(future.mailbox_id)
-        self._mailboxes.pop(future.mailbox_id)
+        box = self._mailboxes.pop(future.mailbox_id, None)
+        if box is None:
+            # Already dropped: the calling task was itself cancelled while
+            # this step was running, which cancelled its children with it.
+            return
+        num_slots = box.expected_num_results
+        if future.mailbox_id in self._active_task.owned_mailboxes:
+            self._active_task.owned_mailboxes.remove(future.mailbox_id)
         addrs = [
             RuntimeAddress(self._id, future.mailbox_id, slot_id)
             for slot_id in range(num_slots)
